@@ -11,6 +11,27 @@ def repo_hook_commits():
         return []
 
 CLAIMED = {
+    "C11": dict(
+        engine="libsim",
+        technique="deterministic simulation (fault-free configuration of the history engine): seeded call histories on one long-lived object, seeded entropy seam, differential oracles against a fresh twin and a second independently hashed execution",
+        text="Seeded search over call histories (1-25/30 public API calls in any order on one Adf: all semantics, nogood search with each built-in heuristic incl. Rand under drawn seeds, counts, facets, diagram queries, extra formulas on the shared diagram). Verdicts: every answer equals that of a fresh object asked only that question (lists in order, undecided entries and handles compared as functions by a table walker); every issued handle keeps its function after every later call; the plan executed twice on independently built objects gives identical logs incl. raw handles. Exploration-level evidence; this is the fault-free configuration whose fault-injecting counterpart is C14.",
+        design_ref="DESIGN.md 5.3",
+        note="Trusted: table walker, harness. Hash-iteration order is varied, not controlled. Insensitive by design to purely functional bugs (wrong on both sides).",
+    ),
+    "C14": dict(
+        engine="libsim",
+        technique="deterministic simulation with restart injection: 'restart' (JSON export/import+repair, or node-list rebuild) is one more generated operation at any point of a seeded call history, only durable state survives; oracle = never-restarted twin + element-wise identity of nodes/roots across the restart",
+        text="Crash-consistency pattern applied to the two persistence paths: restarts are drawn at arbitrary points of seeded call histories, any number of times; volatile (#[serde(skip)]) tables are lost. Verdicts: nodes and roots identical immediately after each restart; every later answer equals the never-restarted twin's; no panic after recovery. Exploration-level evidence.",
+        design_ref="DESIGN.md 5.4",
+        note="Trusted: harness, table walker. The CLI export-file part of the property (never overwrite, acknowledged export is durable) is covered by the clisim part when present in the evidence (parts).",
+    ),
+    "C06": dict(
+        engine="libsim",
+        technique="deterministic simulation: canonicity invariant evaluated after every step of seeded histories with injected restarts / bridge imports and on streaming mirrors after every scheduled poll",
+        text="Scoped claim: the node table stays reduced, ordered, duplicate-free with constants first, and distinct handles denote distinct functions (hence top/bottom iff valid/unsatisfiable), after every step of histories containing JSON re-imports, node-list rebuilds and bridge imports, for everything built afterwards, and on streaming mirrors after every poll under seeded schedules. Operand functions are sampled. Exploration-level evidence.",
+        design_ref="DESIGN.md 5.5",
+        note="Trusted: table walker and structural checker. The purely sequential part of canonicity over plain operand functions is a pure property and not claimed.",
+    ),
     "C05": dict(
         engine="libsim",
         technique="deterministic simulation: adversarial heuristic and Rand seeds drawn from the seeded decision source, solver/consumer threads baton-scheduled over simulated unbounded/bounded/rendezvous channels; multiset oracle against truth-table semantics, termination as a loop-iteration budget, channel closure as scheduler deadlock detection",
@@ -28,9 +49,6 @@ CLAIMED = {
 }
 
 PENDING = {
-    "C06": "claimed (scoped) in DESIGN.md 5.5; check under construction - not yet registered",
-    "C11": "claimed in DESIGN.md 5.3; check under construction - not yet registered",
-    "C14": "claimed in DESIGN.md 5.4; check under construction - not yet registered",
     "C16": "claimed in DESIGN.md 5.7; check under construction (srvsim) - not yet registered",
     "C17": "claimed in DESIGN.md 5.6; check under construction (srvsim) - not yet registered",
 }
